@@ -1373,6 +1373,11 @@ class Exec(object):
                 args, kwargs = self.eval_args(e, st, ctx)
                 if st.dead:
                     return VNone
+                mext = self.reg.match_external("." + e.func.attr)
+                if mext is not None:
+                    # a method declared external by name (receiver of a class the verifier does not look into)
+                    self.ext_calls.add("." + e.func.attr)
+                    return self.apply_contract(mext, None, [recv] + args, kwargs, st, ctx, e, label="." + e.func.attr)
                 return BI.call_method(self, st, ctx, recv, e.func.attr, args, kwargs, e)
             if o[0] == "locals":
                 args, kwargs = self.eval_args(e, st, ctx)
